@@ -65,7 +65,7 @@ def api_witness(slice_, timeout):
     elif kind == 'F45':
         from recognizers_date_time import recognize_datetime
         rs = recognize_datetime('He has been China from 2019-aug-01 to today.', 'en-us', reference=datetime(2019, 1, 31))
-        bad = [v for r in rs for v in r.resolution['values'] if v.get('type') == 'daterange' and v.get('start') and v.get('end') and not v['start'] < v['end']]
+        bad = [v for r in rs for v in (r.resolution or {}).get('values', []) if v.get('type') == 'daterange' and v.get('start') and v.get('end') and not v['start'] < v['end']]
         if bad:
             return {'state': 'counterexample', 'cex': {'w': kind}, 'detail': 'date range with start not before end: %r' % (bad,), 'queries': 1}
     elif kind == 'F46':
@@ -74,6 +74,13 @@ def api_witness(slice_, timeout):
         bad = [v for r in rs for v in r.resolution['values'] if any(str(v.get(k, ''))[:2] > '23' for k in ('start', 'end'))]
         if bad:
             return {'state': 'counterexample', 'cex': {'w': kind}, 'detail': 'time range with an hour beyond 23: %r' % (bad,), 'queries': 1}
+    elif kind in ('F47', 'F48'):
+        from recognizers_date_time import recognize_datetime
+        q = '从一月十日到20日' if kind == 'F47' else '显示 2010 年至 2018 年或 2000 年之前的销售额'
+        rs = recognize_datetime(q, 'zh-cn', reference=datetime(2000, 1, 20))
+        bad = [v for r in rs for v in (r.resolution or {}).get('values', []) if v.get('type') == 'daterange' and v.get('start') and v.get('end') and not v['start'] < v['end']]
+        if bad:
+            return {'state': 'counterexample', 'cex': {'w': kind}, 'detail': 'date range with start not before end: %r' % (bad,), 'queries': 1}
     elif kind == 'F37-overlap':
         from recognizers_date_time import recognize_datetime
         sp = _spans(recognize_datetime('明天三天后', 'zh-cn', reference=datetime(2016, 11, 7)))
